@@ -4,7 +4,7 @@ import numpy as np
 from common import *
 
 ID = "C15"
-THEOREM_FILES = ["Summer.Props.C15", "Summer.Props.C15PermComps", "Summer.Props.C08Values", "Summer.Props.C05Source"]
+THEOREM_FILES = ["Summer.Props.C15", "Summer.Props.C15PermComps", "Summer.Props.C08Values", "Summer.Props.C05Source", "Summer.Props.C17Glue"]
 TASK = "task"
 RULE = ("metamorphic on the real code, two builds of the same model matched by (compartment name, sorted strata): (perm) compartments, flow "
         "declarations and strata (with the rows/columns of the mixing matrix) shuffled, two adjacent independent stratifications swapped; "
@@ -102,7 +102,7 @@ def task(W, payload):
         opts.mixing_pair_bias = 0.6; opts.force_infection = True
     if variant == "perm":
         opts.inexact_split_bias = 0.9 if (payload["index"] // len(VARIANTS)) % 2 == 0 else 0.4
-        if (payload["index"] // len(VARIANTS)) % 2 == 0: opts.force_strat = True    # splits that sum to one only within the API's tolerance: reordering the strata must still only permute the results
+        if (payload["index"] // len(VARIANTS)) % 2 == 0: opts.force_strat = True; opts.split_bias = 0.95    # splits that sum to one only within the API's tolerance: reordering the strata must still only permute the results
     if variant == "perm" and (payload["index"] // len(VARIANTS)) % 2 == 1:
         opts.force_strat = True      # (the shared-object half of the permutation variant needs a stratification to share)
     if variant in ("order", "swap"): opts.allow_post_flows = False
@@ -137,6 +137,7 @@ def task(W, payload):
         for op in ops1:
             if op["op"] == "stratify" and op["kind"] != "age" and len(op["strata"]) >= 2 and not share_mode:
                 idx = list(range(len(op["strata"]))); r.shuffle(idx)
+                if idx[-1] == len(idx) - 1: idx = idx[1:] + idx[:1]     # a different stratum is declared last
                 op["strata"] = [op["strata"][k] for k in idx]
                 if op.get("mixing"):
                     op["mixing"] = [[op["mixing"][a][b] for b in idx] for a in idx]
